@@ -9,6 +9,8 @@ pub enum J {
     Null,
     Bool(bool),
     Int(i64),
+    /// an integer above i64::MAX (serde_json keeps it as u64); never used for smaller values
+    UInt(u64),
     Float(f64),
     Str(String),
     Arr(Vec<J>),
@@ -30,6 +32,7 @@ impl J {
             J::Null => Value::Null,
             J::Bool(b) => Value::Bool(*b),
             J::Int(i) => Value::Number(Number::from(*i)),
+            J::UInt(u) => Value::Number(Number::from(*u)),
             J::Float(f) => Number::from_f64(*f)
                 .map(Value::Number)
                 .unwrap_or(Value::Null),
@@ -51,6 +54,8 @@ impl J {
             Value::Number(n) => {
                 if let Some(i) = n.as_i64() {
                     J::Int(i)
+                } else if let Some(u) = n.as_u64() {
+                    J::UInt(u)
                 } else {
                     J::Float(n.as_f64().unwrap_or(0.0))
                 }
@@ -86,6 +91,7 @@ impl J {
     pub fn num(&self) -> Option<f64> {
         match self {
             J::Int(i) => Some(*i as f64),
+            J::UInt(u) => Some(*u as f64),
             J::Float(f) => Some(*f),
             _ => None,
         }
@@ -178,7 +184,9 @@ pub fn eq_json(a: &J, b: &J) -> bool {
         (J::Bool(x), J::Bool(y)) => x == y,
         (J::Str(x), J::Str(y)) => x == y,
         (J::Int(x), J::Int(y)) => x == y,
-        (J::Int(_) | J::Float(_), J::Int(_) | J::Float(_)) => a.num() == b.num(),
+        (J::UInt(x), J::UInt(y)) => x == y,
+        (J::Int(_), J::UInt(_)) | (J::UInt(_), J::Int(_)) => false,
+        (J::Int(_) | J::UInt(_) | J::Float(_), J::Int(_) | J::UInt(_) | J::Float(_)) => a.num() == b.num(),
         (J::Arr(x), J::Arr(y)) => x.len() == y.len() && x.iter().zip(y).all(|(p, q)| eq_json(p, q)),
         (J::Obj(x), J::Obj(y)) => {
             x.len() == y.len()
